@@ -219,6 +219,31 @@ func Complits(fn *ssa.Function, typ string) []*ssa.Alloc {
 	return out
 }
 
+// LiteralAllocs: Complits without the locals that are never filled field by field and only receive whole copies of
+// another local of the list (`entry := newEntry(..)` once the constructor is inlined: the literal it copies is the one
+// to look at).
+func LiteralAllocs(fa *FuncAnalysis, fn *ssa.Function, typ string) []*ssa.Alloc {
+	all := Complits(fn, typ)
+	var out []*ssa.Alloc
+	for _, a := range all {
+		if len(complitFields(fa, a)) == 0 {
+			if src := wholeCopySource(a); src != nil && src != a {
+				isLit := false
+				for _, b := range all {
+					if b == src {
+						isLit = true
+					}
+				}
+				if isLit {
+					continue
+				}
+			}
+		}
+		out = append(out, a)
+	}
+	return out
+}
+
 // complitFields returns field -> term of the stores that initialise a composite literal.
 func complitFields(fa *FuncAnalysis, a *ssa.Alloc) map[string]*Term {
 	out := map[string]*Term{}
